@@ -8,6 +8,7 @@ import Drv.Core
 import Drv.DramMon
 import Drv.Phy
 import Drv.PortMon
+import Drv.Dma
 open DrvUtil
 
 def main (args : List String) : IO UInt32 := do
@@ -20,6 +21,9 @@ def main (args : List String) : IO UInt32 := do
   | ["c20exp5"] => mapLines i o drvC20exp5; return 0
   | ["c20path4"] => foldLines i o none drvC20path4; return 0
   | ["c20stream4"] => foldLines i o none drvC20stream4; return 0
+  | ["dmar"] => foldLines i o none drvDmaR; return 0
+  | ["dmaw"] => foldLines i o none drvDmaW; return 0
+  | ["dmamon"] => foldLines i o none drvDmaMon; return 0
   | ["portmon"] => foldLines i o none drvPortMon; return 0
   | ["phy"] => foldLines i o none drvPhy; return 0
   | ["drammon"] => foldLines i o none drvDramMon; return 0
